@@ -128,3 +128,37 @@ Definition observed_opt (h : PESOptionalHeader) : PESOptionalHeader :=
      PESOptionalHeader_PTS := PESOptionalHeader_PTS h;
      PESOptionalHeader_PTSDTSIndicator := PESOptionalHeader_PTSDTSIndicator h;
      PESOptionalHeader_ScramblingControl := PESOptionalHeader_ScramblingControl h |}.
+
+(* ---------------- the PES packet header ---------------- *)
+
+(* stream ids whose packets carry the optional header. Table 2-21 excludes program_stream_map 0xBC, padding_stream 0xBE,
+   private_stream_2 0xBF, ECM 0xF0, EMM 0xF1, DSMCC_stream 0xF2, H.222.1 type E 0xF8 and program_stream_directory 0xFF;
+   the library excludes only 0xBE and 0xBF (known finding K4), and the theorems about it are stated for its set. *)
+Definition iso_has_optional_header (sid : Z) : bool :=
+  negb (existsb (Z.eqb sid) [188; 190; 191; 240; 241; 242; 248; 255]).
+Definition lib_has_optional_header (sid : Z) : bool := negb (orb (sid =? 190) (sid =? 191)).
+
+(* PES_packet_length as the writer chooses it: 0 (unbounded) for the video stream ids 0xE0 and 0xFD and when the
+   value does not fit 16 bits, otherwise the number of bytes behind the field *)
+Definition ref_packet_length (sid optlen payload : Z) : Z :=
+  if orb (sid =? 224) (sid =? 253) then 0
+  else if optlen + payload >? 65535 then 0
+  else optlen + payload.
+
+Definition wf_header (h : PESHeader) : Prop :=
+  0 <= PESHeader_StreamID h < 256 /\
+  (lib_has_optional_header (PESHeader_StreamID h) = true ->
+   exists oh, PESHeader_OptionalHeader h = Some oh /\ wf_opt oh).
+
+Definition ref_opt_len (h : PESHeader) : Z :=
+  if lib_has_optional_header (PESHeader_StreamID h)
+  then match PESHeader_OptionalHeader h with Some oh => 3 + ref_header_data_length oh | None => 0 end
+  else 0.
+
+(* what a parser returns for the encoding of h in front of a payload of n bytes *)
+Definition observed_header (h : PESHeader) (n : Z) : PESHeader :=
+  {| PESHeader_OptionalHeader :=
+       if lib_has_optional_header (PESHeader_StreamID h)
+       then option_map observed_opt (PESHeader_OptionalHeader h) else None;
+     PESHeader_PacketLength := ref_packet_length (PESHeader_StreamID h) (ref_opt_len h) n;
+     PESHeader_StreamID := PESHeader_StreamID h |}.
